@@ -358,7 +358,7 @@ func C09(seed uint64, run int) *spec.Spec {
 		nPub := r.Range(1, 3)
 		for p := 0; p < nPub; p++ {
 			var ctor ops.Op
-			switch r.Weighted([]int{40, 20, 8, 10, 6, 6, 4, 3, 3}) {
+			switch r.Weighted([]int{36, 18, 8, 10, 6, 6, 4, 3, 3, 3, 2, 2, 2, 2, 2}) {
 			case 0:
 				ctor = ops.Op{K: "solar2lunar", A: g.solarArgs()}
 			case 1:
@@ -377,10 +377,38 @@ func C09(seed uint64, run int) *spec.Spec {
 				a := g.lunarArgs()
 				a[0] += 2697
 				ctor = ops.Op{K: "tao", A: a}
-			default:
+			case 8:
 				a := g.lunarArgs()
 				a[0] += 543
 				ctor = ops.Op{K: "foto", A: a}
+			case 9:
+				a := g.solarArgs()
+				if a[0] > 9800 {
+					a[0] = 9800
+				}
+				ctor = ops.Op{K: "yunobj", A: append(a, r.Range(0, 1), r.Range(1, 2))}
+			case 10:
+				a := g.solarArgs()
+				if a[0] > 9800 {
+					a[0] = 9800
+				}
+				ctor = ops.Op{K: "dayun", A: append(a, r.Range(0, 1), r.Range(1, 2), r.Intn(8))}
+			case 11:
+				y, m, d := g.solarYmd(g.anyYear())
+				ctor = ops.Op{K: "week", A: []int{y, m, d, r.Intn(7), r.Range(-2, 2), r.Intn(2)}}
+			case 12:
+				ctor = ops.Op{K: "smonth", A: []int{g.anyYear(), r.Range(1, 12), r.Range(-2, 2)}}
+			case 13:
+				ctor = ops.Op{K: "syear", A: []int{g.anyYear(), r.Range(-1, 1)}}
+			default:
+				y := g.anyYear()
+				if y > 9990 {
+					y = 9990
+				}
+				if y < 5 {
+					y = 5
+				}
+				ctor = ops.Op{K: "lmonth_next", A: []int{y, r.Range(1, 12), r.Range(-2, 2)}}
 			}
 			cu := g.add(ctor)
 			pt := r.Intn(nTasks)
